@@ -1,5 +1,6 @@
 import AvoVerif.Drv.Common
 import AvoVerif.Model.Attr
+import AvoVerif.Model.AttrFile
 import AvoVerif.Gen.TextFlags
 import AvoVerif.Oracle.TextFlagH
 namespace Avo.Drv.C19
@@ -45,6 +46,66 @@ def acceptAttr (v : Nat) (text : String) (contains : Bool) : String :=
     else if usesMacro toks && !contains then "bad-include"
     else "ok"
 
+/-- a hex-encoded string token -/
+def hexTok : List String → Option (String × List String)
+  | [] => none
+  | t :: ts => (unhexStr t).map (·, ts)
+
+/-- Like `parseText`, tolerant of blanks around the parts (the assembler is). -/
+def parseClause (s : String) : List Tok :=
+  (s.splitOn "|").map (fun p =>
+    let p := p.trimAscii.toString
+    match p.toNat? with
+    | some v => Tok.num v
+    | none => match hexVal? p with
+      | some v => Tok.num v
+      | none => Tok.name p)
+
+/-- `<t|g> <value> <clause hex, or "-" for an omitted clause>` -/
+def secTok : List String → Option ((Bool × Nat × Option String) × List String)
+  | k :: v :: c :: ts => do
+    let n ← v.toNat?
+    let isText ← (if k == "t" then some true else if k == "g" then some false else none)
+    let cl ← (if c == "-" then some none else (unhexStr c).map some)
+    some ((isText, n, cl), ts)
+  | _ => none
+
+/-- Acceptor for a printed file: `Avo.Attr.acceptFile` (sound and complete for `FileOK`,
+`Props/C19File.acceptFile_sound`) in the environment `stdEnv Oracle.textflagH` — "textflag.h" by its exact
+spelling is the installed header, every other include defines no flag macro —, on the clauses parsed from the
+implementation's text.  GLOBL must carry a clause; a value beyond 16 bits is rejected outright. -/
+def acceptFileText (incl : List String) (secs : List (Bool × Nat × Option String)) : String :=
+  if secs.any (fun s => s.2.1 ≥ 65536) then "bad-request" else
+  if secs.any (fun s => !s.1 && s.2.2.isNone) then "bad-globl-without-clause" else
+  let parsed := secs.map (fun s => (BitVec.ofNat 16 s.2.1, s.2.2.map parseClause))
+  if parsed.any (fun s => match s.2 with | some ts => wideLiteral ts | none => false) then "bad-wide-literal" else
+  if acceptFile (stdEnv Avo.Oracle.textflagH) incl parsed then "ok" else
+  match firstBad (stdEnv Avo.Oracle.textflagH) incl parsed 0 with
+  | some (k, none) => s!"bad-undefined-macro section={k}"
+  | some (k, some r) => s!"bad-value section={k} got={r.toNat}"
+  | none => "bad"
+
+/-- `<t|g> <value> <measured value or -> <dupok 0|1|->` -/
+def measTok : List String → Option ((Nat × Option Nat × Option Bool) × List String)
+  | _k :: v :: m :: d :: ts => do
+    let n ← v.toNat?
+    let mv ← (if m == "-" then some none else m.toNat?.map some)
+    let dk ← (if d == "-" then some none else if d == "1" then some (some true) else if d == "0" then some (some false) else none)
+    some ((n, mv, dk), ts)
+  | _ => none
+
+/-- Measured route: the assembler accepted the file, evaluated every clause (in the file's own include
+environment, through a DATA probe) to the section's value, and the symbol carries DUPOK exactly when bit 2 is set. -/
+def acceptMeasured (status : String) (secs : List (Nat × Option Nat × Option Bool)) : String :=
+  if status != "ok" then "bad-rejected" else
+  match secs.findIdx? (fun s => s.2.1 != some s.1) with
+  | some k => s!"bad-measured-value section={k}"
+  | none =>
+    match secs.findIdx? (fun s => s.2.2 != some (s.1 / 2 % 2 == 1)) with
+    | some k => s!"bad-symbol-dupok section={k}"
+    | none => "ok"
+
+
 /-- `attr <u16>` → `<asm text> <containsTextFlags> <TEXT clause text or ->` -/
 def handle : Handler
   | ["attr", v] => do
@@ -64,19 +125,30 @@ def handle : Handler
     let _ := c
     some (if n == 0 then "ok" else "bad-value 0")
   | "accept-incl" :: rest => do
-    -- final include list, then the printed attribute texts of the sections
-    let (incl, rest) ← listOf strTok rest
+    -- final include list (hex), then the printed attribute texts of the sections
+    let (incl, rest) ← listOf hexTok rest
     let (texts, _) ← listOf strTok rest
     let needs := texts.any (fun t => usesMacro (parseText t))
     some (if needs && !incl.contains textflagHeader then "bad-missing-include" else "ok")
   | "inclpass" :: rest => do
-    let (incl, rest) ← listOf strTok rest
+    -- prior include list (hex), then the attribute values of the sections
+    let (incl, rest) ← listOf hexTok rest
     let (secs, _) ← listOf natTok rest
     let r := includeTextFlagHeader Avo.Gen.attrname incl (secs.map (BitVec.ofNat 16))
-    some (joinSp (toString r.length :: r))
+    some (joinSp (toString r.length :: r.map hexStr))
+  | "accept-file" :: _route :: rest => do
+    -- the include lines and the TEXT/GLOBL clauses of the REAL printed file
+    let (incl, rest) ← listOf hexTok rest
+    let (secs, _) ← listOf secTok rest
+    some (acceptFileText incl secs)
+  | "accept-asmfile" :: _route :: status :: rest => do
+    -- what `go tool asm` made of the real printed file (+ one DATA probe per clause)
+    let (_incl, rest) ← listOf hexTok rest
+    let (secs, _) ← listOf measTok rest
+    some (acceptMeasured status secs)
   | _ => none
 
 def handlers : List (String × Handler) :=
-  ["attr", "inclpass", "accept-attr", "accept-incl"].map (·, handle)
+  ["attr", "inclpass", "accept-attr", "accept-incl", "accept-file", "accept-asmfile"].map (·, handle)
 
 end Avo.Drv.C19
